@@ -59,7 +59,7 @@ def run(ctx):
     mon.attach_transform()
     to_mef = F.transform.to_mef
     path = os.path.join(ctx.tmpdir, 'c06.fcs')
-    nsamp = 50 if ctx.tier == 'quick' else 1200
+    nsamp = 50 if ctx.tier == 'quick' else 8000
     for cid, rng in ctx.cases([('s', i) for i in range(nsamp)]):
         mon.cid = cid
         D = int(rng.integers(2, 7))
@@ -124,4 +124,7 @@ def run(ctx):
                 if ctx.check(o.raised, 'refusal:length-mismatch-accepted', cid, n_curves=badlen, n_channels=k):
                     ctx.refusal('length:' + type(o.exc).__name__)
             ctx.case_done(class_key=('refusals',), nontrivial=True, distinct_key=core.digest(cid, pi, 'ref'))
+    # the repository's own tests as a workload under the same monitors (their assertions are not the oracle)
+    from rv import suite_workload
+    suite_workload.run_repo_suite(ctx, mon, modules=('test_transform.py',))
     mon.detach()
